@@ -82,6 +82,8 @@ REGEX_SPECS = [
     ("text_max_recurse", "iogateway/PlainTextMessageIOGateway.cpp", r"recurseDepth\s*>=\s*(\d+)\)", "int"),
     ("raw_max_scratch", "iogateway/RawDataMessageIOGateway.cpp", r"maxScratchSpaceSize\s*=\s*(\d+)\s*;", "int"),
     ("slip_pending_initial", "iogateway/SLIPFramedDataMessageIOGateway.cpp", r"_pendingBuffer\s*=\s*GetByteBufferFromPool\((\d+)\)", "int"),
+    ("zlib_hdr_dependent", "zlib/ZLibCodec.cpp", r"ZLIB_CODEC_HEADER_DEPENDENT\s*=\s*(\d+)\s*;", "int"),
+    ("zlib_hdr_independent", "zlib/ZLibCodec.cpp", r"ZLIB_CODEC_HEADER_INDEPENDENT\s*=\s*(\d+)\s*;", "int"),
     # --- String growth policy (C17): constants inside util/String.cpp
     ("string_small_growth_threshold", "util/String.cpp", r"if\s*\(bufLen\s*<\s*(\d+)\)\s*return\s+bufLen\+GetMaxShortStringLength\(\)", "int"),
     ("string_page_size", "util/String.cpp", r"STRING_PAGE_SIZE\s*=\s*(\d+)\s*;", "int"),
@@ -156,6 +158,17 @@ REGEX_SPECS = [
      r"PassMessageCallbackAux\(DataNode & node[^{]*\{(?:[^}]|\}(?!\s*\n\s*int\b))*?return NODE_DEPTH_SESSIONNAME;\s*// This causes the traversal to immediately skip to the next session", "flag"),
     ("c05_default_flags_gw_and_nb", "reflector/DumbReflectSession.cpp",
      r"_defaultRoutingFlags\(MUSCLE_ROUTING_FLAG_GATEWAY_TO_NEIGHBORS,\s*MUSCLE_ROUTING_FLAG_NEIGHBORS_TO_GATEWAY\)", "flag"),
+    # --- C07: the index JettisonOutgoingResults passes to RemoveData in its per-field item loop (finding F4: `i`, the queue
+    #     index, where the item index `j` is meant; kind "flag": 1 iff the repaired text is present), and which of the three
+    #     reflector repairs of C04 the sources at hand still lack (the extracted model follows the code as it is)
+    ("c07_jettison_removes_item_j", "reflector/StorageReflectSession.cpp",
+     r"if \(matcher->MatchesPath\(nextFieldName\(\), nextSubMsgRef\(\), NULL\)\) \(void\) msg->RemoveData\(nextFieldName, j\);\s*else j\+\+;", "flag"),
+    ("c07_guard_as_found", "reflector/StorageReflectSession.cpp",
+     r"\(GetEntries\(\)\.GetNumItems\(\) == 1\)&&\(\(data\.IsUseFiltersOkay\(\) == false\)", "flag"),
+    ("c07_cqf_as_found", "reflector/StorageReflectSession.cpp",
+     r"if \(oldMatches != newMatches\) NodeChangedAux\(node, constMsg2", "flag"),
+    ("c07_push_as_found", "reflector/StorageReflectSession.cpp",
+     r"if \(updateDefaultMessageRoute\) UpdateDefaultMessageRoute\(\);\s*if \(getMsg\.HasName\(PR_NAME_KEYS\)\) DoGetData\(getMsg\);", "flag"),
     # --- packet tunnels (C12): constants inside iogateway/PacketTunnelIOGateway.cpp / MiniPacketTunnelIOGateway.cpp
     ("tunnel_fragment_header_words", "iogateway/PacketTunnelIOGateway.cpp", r"FRAGMENT_HEADER_SIZE\s*=\s*(\d+)\s*\*\s*\(sizeof\(uint32\)\)\s*;", "int"),
     ("tunnel_max_receive_states", "iogateway/PacketTunnelIOGateway.cpp", r"MAX_NUM_RECEIVE_STATES\s*=\s*(\d+)\s*;", "int"),
